@@ -22,7 +22,9 @@ func init() {
 }
 
 var c09Vocab = []string{"AND", "and", "And", "OR", "or", "NOT", "not", "BETWEEN", "between", "IN", "in", "SET", "set", "REMOVE", "remove", "ADD", "add", "DELETE", "delete",
-	"=", "<>", "<", "<=", ">", ">=", "(", ")", "[", "]", ".", ",", "+", "-", ":v1", ":zz", "#a", "a", "b", "size", "attribute_exists", "if_not_exists", "list_append", "0", "1"}
+	"=", "<>", "<", "<=", ">", ">=", "(", ")", "[", "]", ".", ",", "+", "-", ":v1", ":zz", "#a", "a", "b", "size", "attribute_exists", "if_not_exists", "list_append", "0", "1",
+	// character runs that are neither a name, a placeholder nor a list position
+	"a:b", "1a", "a#b", "#", ":", "::v1", "b:", "9lives", "#a#a", ":v1:v1", "a:v1", "#:"}
 
 func tokenize(s string) []string {
 	out := []string{}
